@@ -95,6 +95,12 @@ def main() -> int:
         observation = {k: o[k] for k in ("outcome", "positioned", "exc", "render", "render_exc", "render_compiles", "reparse", "reparse_exc")}
         observation["render_text"] = core.from_cps(o["render_text"])
         ck.violation(key, v["invariant"], cases[v["n"]], observation, detail="pattern=%r outcome=%s %s rendering=%r reparse=%s" % (text, o["outcome"], o["exc"]["msg"][:80], observation["render_text"], o["reparse"]))
+    by_key = {}
+    for v in violations:
+        k = "%s / %s" % (v["invariant"], v["culprit"])
+        by_key.setdefault(k, [0, core.from_cps(obs[v["n"]]["text"])])
+        by_key[k][0] += 1
+    ck.notes += ["violating cases by key: %s: %d (e.g. %r)" % (k, n, ex) for k, (n, ex) in sorted(by_key.items())]
     n_parsed = sum(c[1] for c in counters)
     n_error = sum(c[2] for c in counters)
     n_exc = sum(c[3] for c in counters)
